@@ -30,6 +30,7 @@ const verif = "/verif"
 type checkDef struct {
 	Harness    string // directory under /verif/h
 	Instrument bool
+	Access     bool // also instrument field / map accesses (C09)
 	Tags       string
 	Args       []string
 }
@@ -67,6 +68,8 @@ func addDir(ov map[string]string, srcDir, dstDir string) {
 }
 
 // build creates the overlay and builds harness into scratch/h.bin.
+var accessMode bool
+
 func build(scratch, harness string, instrument bool, tags string, race bool) string {
 	ov := map[string]string{}
 	// runtime
@@ -82,7 +85,11 @@ func build(scratch, harness string, instrument bool, tags string, race bool) str
 	addDir(ov, filepath.Join(verif, "inject"), repo)
 	if instrument {
 		rw := filepath.Join(verif, "bin", "vrewrite")
-		cmd := exec.Command(rw, "-repo", repo, "-out", filepath.Join(scratch, "rw"), "-overlay", filepath.Join(scratch, "rw.json"))
+		rwArgs := []string{"-repo", repo, "-out", filepath.Join(scratch, "rw"), "-overlay", filepath.Join(scratch, "rw.json")}
+		if accessMode {
+			rwArgs = append(rwArgs, "-access")
+		}
+		cmd := exec.Command(rw, rwArgs...)
 		cmd.Env = goEnv()
 		cmd.Stdout = os.Stderr
 		cmd.Stderr = os.Stderr
@@ -169,6 +176,8 @@ func run(scratch string) int {
 			switch os.Args[i] {
 			case "-i":
 				instr = true
+			case "-access":
+				instr, accessMode = true, true
 			case "-race":
 				race = true
 			case "-tags":
@@ -223,6 +232,7 @@ func run(scratch string) int {
 			fatal(2, "unknown check %s", id)
 		}
 		t0 := time.Now()
+		accessMode = def.Access
 		bin := build(scratch, def.Harness, def.Instrument, def.Tags, false)
 		fmt.Fprintf(os.Stderr, "vcheck: built %s in %.1fs\n", def.Harness, time.Since(t0).Seconds())
 		args := append([]string{"-id", id, "-tier", tier, "-verif", verif, "-build-s", fmt.Sprintf("%.1f", time.Since(t0).Seconds())}, def.Args...)
@@ -243,6 +253,7 @@ func run(scratch string) int {
 		if !ok {
 			fatal(2, "unknown check %s", r.Property)
 		}
+		accessMode = def.Access
 		bin := build(scratch, def.Harness, def.Instrument, def.Tags, false)
 		args := append([]string{"-id", r.Property, "-replay", path, "-verif", verif}, def.Args...)
 		return execBin(bin, args, scratch)
